@@ -14,7 +14,7 @@ else
   (cd "$D" && patch -p1 -s < "$M") || { echo "PATCH FAILED"; rm -rf "$D"; exit 9; }
 fi
 (cd "$D" && /venv/bin/python -m pytest -q -p no:cacheprovider --timeout=900 --continue-on-collection-errors 2>&1 | tail -1)
-HIDC_ROOT="$D" VERIF_EVIDENCE_DIR="$D/evidence" "$@"
+HIDC_ROOT="$D" VERIF_EVIDENCE_DIR="$D/evidence" VERIF_OUT_DIR="${MUT_OUT_DIR:-$D/out}" "$@"
 rc=$?
 rm -rf "$D"
 echo "mutrun exit=$rc"
